@@ -13,6 +13,7 @@ var props = map[string]struct {
 	level string
 	fn    func(*h.Run)
 }{
+	"dbg-checkcache": {"other", h.DebugCheckCache},
 	"dbg-itercache": {"other", h.DebugIterCache},
 	"dbg-reduce": {"other", h.DebugReduce},
 	"dbg-lo": {"other", h.DebugLO},
